@@ -93,7 +93,7 @@ func s35Where(x *s35X, at int) string {
 // equal, the CRC field holds the result of ComputeCRC over exactly the bytes
 // before it. skipAdj leaves the 33 pts_adjustment bits out (their round-trip
 // identity is arithmetic, checked separately).
-func compareEncoding(got []*BV, want *s35X, calls []crcCall, skipAdj, skipDesc bool) string {
+func compareEncoding(got []*BV, want *s35X, calls []crcCall, skipAdj, skipDesc bool, envs ...cenv) string {
 	exp := want.cells[want.sectionAt:]
 	if len(got) != len(exp) {
 		return fmt.Sprintf("encoding has %d bytes, the canonical section has %d (section_length %d)", len(got), len(exp), want.secLen)
@@ -101,6 +101,15 @@ func compareEncoding(got []*BV, want *s35X, calls []crcCall, skipAdj, skipDesc b
 	body := len(exp) - 4
 	for i := 0; i < body; i++ {
 		wb := exp[i].Bits
+		if len(envs) > 0 && i >= 4 && i <= 8 {
+			if ok, _ := matchBits(got[i], wb); ok {
+				continue
+			}
+			if ok, d := sampledSame(got[i], exp[i], envs); !ok {
+				return fmt.Sprintf("byte %d (%s): %s", i, s35Where(want, i), d)
+			}
+			continue
+		}
 		if skipAdj && i >= 4 && i <= 8 {
 			g := got[i]
 			if i == 4 {
@@ -212,7 +221,13 @@ func (c *Checker) runS35RoundTrip(thorough bool) {
 				mixed = true
 			}
 		}
-		if d := compareEncoding(got, want, calls, hasPTS, mixed); d != "" {
+		var envs []cenv
+		if hasPTS {
+			// pts_adjustment after re-encoding is ((pts_time + adj) mod 2^33 - pts_time) mod 2^33:
+			// compared on boundary and random samples of both fields
+			envs = sampleEnvs([][]Bit{x.v("pts"), x.v("adj")}, 60)
+		}
+		if d := compareEncoding(got, want, calls, false, mixed, envs...); d != "" {
 			fail(d)
 			continue
 		}
@@ -260,4 +275,6 @@ func runC09(c *Checker) {
 	_ = os.Getenv
 	_ = sort.Strings
 	c.runS35RoundTrip(c.Tier == "thorough")
+	c.runS35Setters(c.Tier == "thorough")
+	c.runS35Build()
 }
